@@ -5,7 +5,28 @@
 mod common;
 mod pool;
 mod e1;
+mod e2;
+mod dump;
+mod c01;
+mod c02;
+mod c03;
+mod c04;
+mod c05;
+mod c06;
+mod c07;
+mod c08;
+mod c09;
+mod c10;
+mod c11;
+mod c12;
+mod c13;
+mod c14;
+mod c15;
+mod c16;
 mod c17;
+mod c18;
+mod c19;
+mod c20;
 
 use common::*;
 
@@ -17,7 +38,28 @@ pub struct Entry {
 }
 
 fn registry() -> Vec<Entry> {
-    vec![c17::entry()]
+    vec![
+        c01::entry(),
+        c02::entry(),
+        c03::entry(),
+        c04::entry(),
+        c05::entry(),
+        c06::entry(),
+        c07::entry(),
+        c08::entry(),
+        c09::entry(),
+        c10::entry(),
+        c11::entry(),
+        c12::entry(),
+        c13::entry(),
+        c14::entry(),
+        c15::entry(),
+        c16::entry(),
+        c17::entry(),
+        c18::entry(),
+        c19::entry(),
+        c20::entry(),
+    ]
 }
 
 fn main() {
